@@ -1530,9 +1530,10 @@ def _str_uf(name, nargs=0, ret=None):
         a = [engine.as_str(x) if x.kind in ("str",) or (x.kind == "v") else None for x in args[:nargs]]
         if any(x is None for x in a):
             raise OutsideSubset(f"str.{name} argument form")
-        f = z3.Function("py_" + name, *([S.Str] * (1 + len(a)) + [ret or S.Str]))
+        rs = S.Str if ret is None else ret
+        f = z3.Function("py_" + name, *([S.Str] * (1 + len(a)) + [rs]))
         r = f(recv.t, *a)
-        yield st, (sv_str(r) if ret is None else (sv_bool(r) if ret == S.Bool else sv_int(r)))
+        yield st, (sv_str(r) if ret is None else (sv_bool(r) if rs.eq(S.Bool) else sv_int(r)))
 
     return m
 
@@ -1545,6 +1546,28 @@ def m_str_removeprefix(engine, st, recv, args, kwargs, recv_node):
 def m_str_removesuffix(engine, st, recv, args, kwargs, recv_node):
     p = engine.as_str(args[0])
     yield st, sv_str(z3.If(And(z3.SuffixOf(p, recv.t), z3.Length(p) > 0), z3.SubString(recv.t, 0, z3.Length(recv.t) - z3.Length(p)), recv.t))
+
+
+def m_str_partition(engine, st, recv, args, kwargs, recv_node):
+    sep = engine.as_str(args[0])
+    s_ = recv.t
+    idx = z3.IndexOf(s_, sep, 0)
+    found = z3.Contains(s_, sep)
+    head = z3.If(found, z3.SubString(s_, 0, idx), s_)
+    mid = z3.If(found, sep, z3.StringVal(""))
+    tail = z3.If(found, z3.SubString(s_, idx + z3.Length(sep), z3.Length(s_) - idx - z3.Length(sep)), z3.StringVal(""))
+    yield st, sv_tuple([sv_str(head), sv_str(mid), sv_str(tail)])
+
+
+def m_str_rpartition(engine, st, recv, args, kwargs, recv_node):
+    sep = engine.as_str(args[0])
+    s_ = recv.t
+    idx = z3.LastIndexOf(s_, sep)
+    found = z3.Contains(s_, sep)
+    head = z3.If(found, z3.SubString(s_, 0, idx), z3.StringVal(""))
+    mid = z3.If(found, sep, z3.StringVal(""))
+    tail = z3.If(found, z3.SubString(s_, idx + z3.Length(sep), z3.Length(s_) - idx - z3.Length(sep)), s_)
+    yield st, sv_tuple([sv_str(head), sv_str(mid), sv_str(tail)])
 
 
 def m_str_find(engine, st, recv, args, kwargs, recv_node):
@@ -1796,6 +1819,8 @@ METHODS = {
     ("str", "removeprefix"): m_str_removeprefix,
     ("str", "removesuffix"): m_str_removesuffix,
     ("str", "find"): m_str_find,
+    ("str", "partition"): m_str_partition,
+    ("str", "rpartition"): m_str_rpartition,
     ("str", "rfind"): m_str_rfind,
     ("str", "lstrip"): m_str_lstrip,
     ("str", "rstrip"): m_str_rstrip,
